@@ -3,7 +3,7 @@
     used by a theorem; the theorems talk about [deriv] (LModel.v), which [rhs_exec] calls. *)
 From Coq Require Import List ZArith NArith Bool Arith QArith.
 From MxlBase Require Import ListX.
-From Label Require Import LModel Iso IsoSession Linear.
+From Label Require Import LModel Iso IsoSession Linear LinSession.
 Import ListNotations.
 
 Definition lnames_eqb := list_eqb lname_eqb.
@@ -113,3 +113,17 @@ Definition check_lin (ek : expand_kind) (dir : direction) (c : lin_case) : bool 
      | Ok m => forallb (fun sr => optQs_eqb (rhs_exec (fun q => q) m (fst sr)) (snd sr)) (lc_rhs c)
      | Err _ => true
      end.
+
+(** one HISTORY of operations on ONE LinearLabelMapper object (LinSession.v): the mapper's fields at construction, the base
+    model's reactions, the edits and build_model calls in order, what every call of /repo returned, and the mapper's two public
+    dicts after the last operation *)
+Record lin_sess_case := mkLinSess {
+  ls_lv : label_vars; ls_maps : label_maps; ls_rxns : list brxn; ls_ops : list lin_op;
+  ls_built : list (result (lmodel Q));
+  ls_lv_after : label_vars; ls_maps_after : label_maps
+}.
+Definition lv_eqb (a b : label_vars) : bool := list_eqb (fun x y => N.eqb (fst x) (fst y) && Nat.eqb (snd x) (snd y)) a b.
+Definition check_lin_sess (cm : cache_mode) (ek : expand_kind) (dir : direction) (c : lin_sess_case) : bool :=
+  let '(mine, mp) := lin_session cm (lin_rxns_x ek dir) (ls_rxns c) (new_mapper (ls_lv c) (ls_maps c)) (ls_ops c) in
+  list_eqb (result_eqb (lmodel_eqb Qeq_bool)) mine (ls_built c)
+  && lv_eqb (mp_lv mp) (ls_lv_after c) && maps_eqb (mp_maps mp) (ls_maps_after c).
